@@ -57,6 +57,11 @@ type TreeCase struct {
 	// Warmup, when non-nil, is a first argument vector given to the SAME application object before Argv()
 	// (only help requests are generated: they leave no values behind)
 	Warmup []string `json:"warmup,omitempty"`
+	// Foreign: some level holds a positional value spelled like a command that is not one of its direct sub commands
+	Foreign bool `json:"foreign,omitempty"`
+	// Builtin: valued options and arguments of every level are the library's own []string containers, all declared
+	// with ONE shared default slice (spare capacity), as in C02
+	Builtin bool `json:"builtin,omitempty"`
 
 	forceContinue bool
 }
@@ -139,7 +144,10 @@ func GenTree(t *rapid.T, depth int, id *int, cfg GenCfg) *TCmd {
 		n := rapid.IntRange(0, 3).Draw(t, "nsubs")
 		for i := 0; i < n; i++ {
 			s := GenTree(t, depth-1, id, cfg)
-			if chance(t, 1, 6, "samedecls") {
+			if cfg.BareSubs {
+				s.D = &Decls{}
+				s.AST, s.Spec, s.Implicit = implicitAST(s.D), "", true
+			} else if chance(t, 1, 6, "samedecls") {
 				// the very same declarations and spec text as the parent: each level must still bind its own variables
 				s.D, s.AST, s.Spec, s.Implicit = c.D, c.AST, c.Spec, c.Implicit
 			}
@@ -149,12 +157,38 @@ func GenTree(t *rapid.T, depth int, id *int, cfg GenCfg) *TCmd {
 				if chance(t, 1, 6, "nonasciialias") {
 					al = fmt.Sprintf("c%d%cé", *id*10+i, 'a'+j) // command names are arbitrary words, not only ASCII
 				}
+				if cfg.aliasPool != nil && len(*cfg.aliasPool) > 0 && chance(t, 1, 5, "reusedalias") {
+					// the name of a command elsewhere in the tree (a descendant, a cousin, ...): routing is per level
+					cand := (*cfg.aliasPool)[intn(t, len(*cfg.aliasPool), "reuse")]
+					taken := false
+					for _, sib := range c.Subs {
+						for _, a := range sib.Aliases {
+							taken = taken || a == cand
+						}
+					}
+					for _, a := range s.Aliases {
+						taken = taken || a == cand
+					}
+					if !taken {
+						al = cand
+					}
+				}
 				s.Aliases = append(s.Aliases, al)
+			}
+			if cfg.aliasPool != nil {
+				*cfg.aliasPool = append(*cfg.aliasPool, s.Aliases...)
 			}
 			c.Subs = append(c.Subs, s)
 		}
 	}
 	return c
+}
+
+func (c *TCmd) walk(f func(*TCmd)) {
+	f(c)
+	for _, s := range c.Subs {
+		s.walk(f)
+	}
 }
 
 // FRec is the recorder used in trees: it fails on BadToken.
@@ -178,11 +212,16 @@ func (b *FBRec) IsBoolFlag() bool { return true }
 type TreeOutcome struct {
 	Outcome
 	Binds map[string]map[string][]string // level path -> bindings, read inside the Action
+	// FlagBinds: the same through the SetByUser flags (only consulted for the library's own containers, where a
+	// command-line value equal to the declared content cannot be told from "not written" by looking at the content)
+	FlagBinds map[string]map[string][]string
 }
 
 type treeDecl struct {
 	holders       map[string][]Holder
 	forceContinue bool
+	builtin       bool
+	shared        []string // the ONE default slice of every built-in container of the tree (all levels)
 }
 
 func declareTree(c *cli.Cmd, t *TCmd, path string, out *TreeOutcome, td *treeDecl, chain []string) {
@@ -201,6 +240,9 @@ func declareTree(c *cli.Cmd, t *TCmd, path string, out *TreeOutcome, td *treeDec
 			v := &FBRec{}
 			c.Var(cli.VarOpt{Name: o.DeclName(), Value: v, EnvVar: env, SetByUser: set})
 			hs = append(hs, Holder{Key: t.D.OptKey(i), Rec: &v.Rec, Set: set})
+		} else if td.builtin {
+			p := c.Strings(cli.StringsOpt{Name: o.DeclName(), Value: td.shared, EnvVar: env, SetByUser: set})
+			hs = append(hs, Holder{Key: t.D.OptKey(i), Set: set, Get: func() []string { return *p }})
 		} else {
 			v := &FRec{}
 			c.Var(cli.VarOpt{Name: o.DeclName(), Value: v, EnvVar: env, SetByUser: set})
@@ -211,11 +253,17 @@ func declareTree(c *cli.Cmd, t *TCmd, path string, out *TreeOutcome, td *treeDec
 		}
 	}
 	for i, a := range t.D.Args {
-		v := &FRec{}
 		set := new(bool)
+		if td.builtin {
+			p := c.Strings(cli.StringsArg{Name: a.Name, Value: td.shared, SetByUser: set})
+			hs = append(hs, Holder{Key: t.D.ArgKey(i), Set: set, Get: func() []string { return *p }})
+			continue
+		}
+		v := &FRec{}
 		c.Var(cli.VarArg{Name: a.Name, Value: v, SetByUser: set})
 		hs = append(hs, Holder{Key: t.D.ArgKey(i), Rec: &v.Rec, Set: set})
 	}
+	Arm(hs)
 	td.holders[path] = hs
 	c.Spec = t.Spec
 	c.LongDesc = t.Long
@@ -252,6 +300,7 @@ func (c *TreeCase) versionStr() string {
 func RunTree(c *TreeCase) TreeOutcome {
 	var out TreeOutcome
 	out.Binds = map[string]map[string][]string{}
+	out.FlagBinds = map[string]map[string][]string{}
 	var app *cli.Cli
 	if c.Warmup != nil {
 		// a first (help) request on the same application object; its output and ending are not part of the case
@@ -262,6 +311,7 @@ func RunTree(c *TreeCase) TreeOutcome {
 		})
 		out.Log = nil
 		out.Binds = map[string]map[string][]string{}
+		out.FlagBinds = map[string]map[string][]string{}
 	}
 	WithSwap(&out.Outcome, func() {
 		if app == nil {
@@ -286,7 +336,10 @@ func buildTreeApp(out *TreeOutcome, c *TreeCase) *cli.Cli {
 	if c.Version != "" || c.DeclaresVersion {
 		app.Version("V qversion", c.versionStr())
 	}
-	td := &treeDecl{holders: map[string][]Holder{}, forceContinue: c.forceContinue}
+	td := &treeDecl{holders: map[string][]Holder{}, forceContinue: c.forceContinue, builtin: c.Builtin}
+	if c.Builtin {
+		td.shared = BuiltinDefault()
+	}
 	declareTree(app.Cmd, c.Root, "app", out, td, nil)
 	return app
 }
@@ -445,11 +498,13 @@ func CheckTree(prop string, c *TreeCase, st *Stats) *Violation {
 	}
 	if e.Known {
 		if KnownClassAny(F3Class) {
+			// the recorded finding decides one level's verdict: the case is still run and everything else (routing, hooks,
+			// policy, streams) is demanded with exactly the greedy-group verdict at that level
 			st.Class("known:" + F3Class)
-			return nil
+		} else {
+			// without the known-finding entry the ideal verdict is demanded
+			e = ExpectTree(c, true)
 		}
-		// without the known-finding entry the ideal verdict is demanded
-		e = ExpectTree(c, true)
 	}
 	if e.NoAction {
 		st.Class("unclaimed:addressed-command-without-action")
@@ -489,8 +544,8 @@ func CheckTree(prop string, c *TreeCase, st *Stats) *Violation {
 		if len(out.Log) != 0 {
 			return Violf("version request ran hooks %v; %s", out.Log, ctx)
 		}
-		if !strings.Contains(out.Stderr, c.versionStr()) {
-			return Violf("version request did not print the version string %q; stderr=%q; %s", c.versionStr(), out.Stderr, ctx)
+		if !strings.Contains(out.All, c.versionStr()) {
+			return Violf("version request did not print the version string %q; stderr=%q; %s", c.versionStr(), out.All, ctx)
 		}
 		if v := exitOK(0); v != nil {
 			return v
@@ -515,14 +570,14 @@ func CheckTree(prop string, c *TreeCase, st *Stats) *Violation {
 		if len(out.Log) != 0 {
 			return Violf("help request ran hooks %v; %s", out.Log, ctx)
 		}
-		if !containsUsage(out.Stderr, c.FullPath(e.HelpAt)) {
-			return Violf("help request for %q: 'Usage: %s' missing from the error stream %q; %s", c.FullPath(e.HelpAt), c.FullPath(e.HelpAt), normWS(out.Stderr), ctx)
+		if !containsUsage(out.All, c.FullPath(e.HelpAt)) {
+			return Violf("help request for %q: 'Usage: %s' missing from the error stream %q; %s", c.FullPath(e.HelpAt), c.FullPath(e.HelpAt), normWS(out.All), ctx)
 		}
-		ns := " " + normWS(out.Stderr) + " "
+		ns := " " + normWS(out.All) + " "
 		for l, cmd := range cmds {
 			has := strings.Contains(ns, " "+cmd.Long+" ")
 			if has != (l == e.HelpAt) {
-				return Violf("help request addressed to level %d (%s): long description of level %d present=%v; stderr=%q; %s", e.HelpAt, c.FullPath(e.HelpAt), l, has, normWS(out.Stderr), ctx)
+				return Violf("help request addressed to level %d (%s): long description of level %d present=%v; stderr=%q; %s", e.HelpAt, c.FullPath(e.HelpAt), l, has, normWS(out.All), ctx)
 			}
 		}
 		if v := exitOK(0); v != nil {
@@ -558,14 +613,19 @@ func CheckTree(prop string, c *TreeCase, st *Stats) *Violation {
 		if len(out.Log) != 0 {
 			return Violf("rejected invocation (level %d) ran hooks %v; %s", e.RejectAt, out.Log, ctx)
 		}
-		shown := shownLevel(out.Stderr, c)
+		// C07 names the stream ("writes the error and the usage ... to the error stream"); the others do not
+		es := out.All
+		if prop == "C07" {
+			es = out.Stderr
+		}
+		shown := shownLevel(es, c)
 		okLevel := false
 		for _, l := range e.RejectLevels {
 			okLevel = okLevel || l == shown
 		}
 		if !okLevel {
 			return Violf("rejected invocation: the usage of the rejecting command (one of the levels %v: first spec mismatch, or an unconvertible value before it) is missing from the error stream; it shows level %d: %q; %s",
-				e.RejectLevels, shown, normWS(out.Stderr), ctx)
+				e.RejectLevels, shown, normWS(es), ctx)
 		}
 		pol = c.EffPolicy(shown)
 		if len(e.RejectLevels) > 1 {
@@ -579,8 +639,8 @@ func CheckTree(prop string, c *TreeCase, st *Stats) *Violation {
 			if !out.HasErr || out.Exit != nil || out.Panic != "" {
 				return Violf("ContinueOnError: expected a returned error, got err=%q exit=%v panic=%q; %s", out.Err, fmtExit(out.Exit), out.Panic, ctx)
 			}
-			if !strings.Contains(out.Stderr, out.Err) {
-				return Violf("ContinueOnError: the error stream %q lacks the error text %q; %s", out.Stderr, out.Err, ctx)
+			if !strings.Contains(es, out.Err) {
+				return Violf("ContinueOnError: the error stream %q lacks the error text %q; %s", es, out.Err, ctx)
 			}
 		case PolExit:
 			if v := exitOK(2); v != nil {
@@ -594,8 +654,8 @@ func CheckTree(prop string, c *TreeCase, st *Stats) *Violation {
 			if !ok || out.Exit != nil {
 				return Violf("PanicOnError: expected a panic with the error, got panic=%q exit=%v err=%q; %s", out.Panic, fmtExit(out.Exit), out.Err, ctx)
 			}
-			if !strings.Contains(out.Stderr, perr.Error()) {
-				return Violf("PanicOnError: the error stream %q lacks the error text %q; %s", out.Stderr, perr.Error(), ctx)
+			if !strings.Contains(es, perr.Error()) {
+				return Violf("PanicOnError: the error stream %q lacks the error text %q; %s", es, perr.Error(), ctx)
 			}
 		}
 		if pol == PolExit {
@@ -605,8 +665,8 @@ func CheckTree(prop string, c *TreeCase, st *Stats) *Violation {
 			c2 := *c
 			c2.forceContinue = true
 			ref := RunTree(&c2)
-			if ref.HasErr && !strings.Contains(out.Stderr, ref.Err) {
-				return Violf("ExitOnError: the error stream %q lacks the error text %q (taken from the same invocation under ContinueOnError); %s", out.Stderr, ref.Err, ctx)
+			if ref.HasErr && !strings.Contains(es, ref.Err) {
+				return Violf("ExitOnError: the error stream %q lacks the error text %q (taken from the same invocation under ContinueOnError); %s", es, ref.Err, ctx)
 			}
 		}
 		if e.RejectAt >= 1 || e.Conversion {
@@ -652,6 +712,11 @@ func CheckTree(prop string, c *TreeCase, st *Stats) *Violation {
 				st.Class("unclaimed:group-env-binding")
 				continue
 			}
+			if fb := out.FlagBinds[p]; c.Builtin && fb != nil && Verifies(cmd.D, cmd.AST, c.Levels[l], fb, Quirks{GroupEnvAlone: true, KeepTainted: true}) {
+				// a command-line value equal to the declared content of one of the library's own containers
+				st.Class("binding:read-through-flags")
+				continue
+			}
 			return Violf("level %d (%s, spec %q): bound values %s are not a derivation of its own tokens %q; %s", l, p, cmd.AST.Render(cmd.D), fmtBind(b), c.Levels[l], ctx)
 		}
 	}
@@ -666,8 +731,26 @@ func CheckTree(prop string, c *TreeCase, st *Stats) *Violation {
 			nonFirst = true
 		}
 	}
+	if c.Foreign {
+		st.Class("accept:value-spelled-like-a-command-elsewhere-in-the-tree")
+	}
+	reused := map[string]int{}
+	c.Root.walk(func(cmd *TCmd) {
+		for _, a := range cmd.Aliases {
+			reused[a]++
+		}
+	})
+	for _, n := range reused {
+		if n > 1 {
+			st.Class("accept:tree-reuses-a-command-name-on-another-branch-or-level")
+			break
+		}
+	}
 	if len(c.Path) >= 1 {
 		st.Class("accept:depth>=1")
+		if c.Builtin {
+			st.Class("accept:depth>=1,builtin-containers-sharing-one-default")
+		}
 	}
 	for l := 1; l < len(cmds); l++ {
 		if cmds[l].D == cmds[l-1].D || (cmds[l].Spec == cmds[l-1].Spec && FmtDecls(cmds[l].D) == FmtDecls(cmds[l-1].D)) {
@@ -726,20 +809,54 @@ type TreeGenMode struct {
 	Policies bool
 	SubPol   int // chance in 8 that a sub command sets its own policy
 	Warmup   int // chance in 8 of a first help request on the same application object
+	// SubVersion: a sub command on the path may own (and use) an option spelled like the app's version flag even
+	// when the mode never requests the version itself
+	SubVersion bool
 }
 
 // GenTreeCase draws a tree, a path and per-level tokens.
 func GenTreeCase(t *rapid.T, mode TreeGenMode) *TreeCase {
 	id := 0
 	cfg := GenCfg{Depth: 2, Env: true, DD: true}
-	root := GenTree(t, 3, &id, cfg)
+	depth := 3
+	if mode.Warmup > 0 && chance(t, 1, 4, "baresubs") {
+		// only the root declares parameters: the library can Run such an application object more than once
+		cfg.BareSubs, depth = true, 4
+	}
+	var pool []string
+	cfg.aliasPool = &pool
+	root := GenTree(t, depth, &id, cfg)
 	c := &TreeCase{Root: root, HelpLevel: -1}
 	if mode.Policies {
 		c.Policy = intn(t, 3, "policy")
 	}
 	cur := root
+	foreign := false
 	for {
-		toks := Spell(t, cur.D, SampleItems(t, cur.D, cur.AST, cfg))
+		items := SampleItems(t, cur.D, cur.AST, cfg)
+		if len(pool) > 0 && chance(t, 1, 6, "foreignname") {
+			// a positional value spelled like a command elsewhere in the tree, but not like one of THIS command's sub
+			// commands: ordinary data for this level
+			var cands []int
+			for k, it := range items {
+				if it.Opt < 0 && it.Pos != "--" {
+					cands = append(cands, k)
+				}
+			}
+			name := pool[intn(t, len(pool), "foreign")]
+			direct := false
+			for _, s := range cur.Subs {
+				for _, a := range s.Aliases {
+					direct = direct || a == name
+				}
+			}
+			if len(cands) > 0 && !direct {
+				items = append([]Item{}, items...)
+				items[cands[intn(t, len(cands), "foreignat")]].Pos = name
+				foreign = true
+			}
+		}
+		toks := Spell(t, cur.D, items)
 		if chance(t, mode.Mutate, 8, "mutlevel") {
 			toks = MutateArgv(t, toks)
 		}
@@ -757,7 +874,7 @@ func GenTreeCase(t *rapid.T, mode TreeGenMode) *TreeCase {
 			}
 		}
 		c.Levels = append(c.Levels, toks)
-		if len(cur.Subs) == 0 || chance(t, 1, 3, "stop") {
+		if len(cur.Subs) == 0 || (!cfg.BareSubs && chance(t, 1, 3, "stop")) || (cfg.BareSubs && chance(t, 1, 6, "stopbare")) {
 			break
 		}
 		i := intn(t, len(cur.Subs), "sub")
@@ -769,13 +886,22 @@ func GenTreeCase(t *rapid.T, mode TreeGenMode) *TreeCase {
 		}
 	}
 	cur.HasAction = cur.HasAction || !chance(t, 1, 10, "leafnoaction")
-	if chance(t, mode.Warmup, 8, "warmup") {
+	if cfg.BareSubs && chance(t, mode.Warmup, 8, "warmup") {
 		// a help request for a random command of the tree (not necessarily on the path)
 		w := []string{}
 		wc := root
-		for len(wc.Subs) > 0 && chance(t, 2, 3, "wdeeper") {
-			wc = wc.Subs[intn(t, len(wc.Subs), "wsub")]
-			w = append(w, wc.Aliases[intn(t, len(wc.Aliases), "walias")])
+		if len(c.Path) > 0 && chance(t, 1, 2, "wonpath") {
+			// an ancestor of the addressed command
+			k := intn(t, len(c.Path)+1, "wlen")
+			for _, i := range c.Path[:k] {
+				wc = wc.Subs[i]
+				w = append(w, wc.Aliases[intn(t, len(wc.Aliases), "walias")])
+			}
+		} else {
+			for len(wc.Subs) > 0 && chance(t, 3, 4, "wdeeper") {
+				wc = wc.Subs[intn(t, len(wc.Subs), "wsub")]
+				w = append(w, wc.Aliases[intn(t, len(wc.Aliases), "walias")])
+			}
 		}
 		c.Warmup = append(w, rapid.SampledFrom([]string{"-h", "--help"}).Draw(t, "whelp"))
 	}
@@ -801,7 +927,7 @@ func GenTreeCase(t *rapid.T, mode TreeGenMode) *TreeCase {
 			}
 		}
 	}
-	if mode.Version > 0 && len(c.Path) >= 1 && chance(t, 1, 6, "subownsversionname") {
+	if !cfg.BareSubs && (mode.Version > 0 || mode.SubVersion) && len(c.Path) >= 1 && chance(t, 1, 6, "subownsversionname") {
 		// a sub command on the path declares its own flag spelled like the app's version flag and uses it
 		l := 1 + intn(t, len(c.Path), "vlevel")
 		cmd := c.PathCmds()[l]
@@ -825,6 +951,19 @@ func GenTreeCase(t *rapid.T, mode TreeGenMode) *TreeCase {
 		}
 		c.Levels[l] = append([]string{names[intn(t, len(names), "vspell")]}, c.Levels[l]...)
 		c.DeclaresVersion = true
+	}
+	c.Foreign = foreign
+	if chance(t, 1, 4, "builtin") {
+		// the library's own []string containers at every level, all declared with one shared default slice; they convert
+		// anything, so only for cases without the unconvertible token
+		c.Builtin = true
+		for _, toks := range c.Levels {
+			for _, tk := range toks {
+				if tk == BadToken {
+					c.Builtin = false
+				}
+			}
+		}
 	}
 	if !c.DeclaresVersion && chance(t, mode.Version, 16, "version") {
 		c.Version = rapid.SampledFrom([]string{"-V", "--qversion"}).Draw(t, "vflag")
